@@ -201,6 +201,38 @@ def body_fill(ctx, n, d, ub, m1, m2, reset2, same_id):
     ctx.witness("filled")
 
 
+def body_fill_bulk(ctx, total, k_sym, d, n_ref=40, ub=8):
+    """Large samples: `total` rows (k_sym symbolic, the rest concrete) filed into a tree built on n_ref concrete
+    rows: every size-dependent path of fill runs for real, the solver places the symbolic rows in every cell;
+    accumulate-vs-reset with a second large sample."""
+    import importlib
+
+    M = importlib.import_module("menelaus.partitioners.KDQTreePartitioner")
+    rs = np.random.RandomState(11)
+    # the reference rows are concrete, so every cut point is a concrete double and only the symbolic rows fork
+    ref = [list(map(float, r)) for r in np.round(rs.rand(n_ref, d) * 8, 2)]
+    pts = obj_array(ref)
+    rows = [[ctx.real(f"q{i}_{j}") for j in range(d)] for i in range(k_sym)]
+    rows += [list(map(float, r)) for r in np.round(rs.rand(total - k_sym, d) * 8, 2)]
+    q1 = obj_array(rows)
+    q2 = obj_array([list(map(float, r)) for r in np.round(rs.rand(total // 2, d) * 8, 2)])
+    with rebind(M, np=_np_shim()):
+        part = M.KDQTreePartitioner(count_ubound=ub, cutpoint_proportion_lbound=0)
+        part.build(pts)
+        # (the split rule itself is decided on all-symbolic points by the build jobs; with concrete float rows in the
+        # mix the midpoint is a rounded double, so only counts and membership are compared here)
+        part.fill(pts, "ref-again")
+        _check_tree(ctx, part, list(pts), d, ub, "ref-again", "fill")
+        ctx.prove(part.leaf_counts("ref-again") == part.leaf_counts("build"), "fill-of-build-data-reproduces-build-counts")
+        part.fill(q1, "t")
+        _check_tree(ctx, part, list(q1), d, ub, "t", "fill")
+        part.fill(q2, "t")  # accumulates
+        _check_tree(ctx, part, list(q1) + list(q2), d, ub, "t", "fill")
+        part.fill(q1, "t", reset=True)  # overwrites
+        _check_tree(ctx, part, list(q1), d, ub, "t", "fill")
+    ctx.witness("filled")
+
+
 def body_distn(ctx, k):
     import importlib
 
@@ -333,6 +365,10 @@ def jobs(tier):
                         out.append(Job(f"fill-d{d}-n{n}-m{m1}{m2}-reset{int(reset2)}-same{int(same)}", "checks.c08:body_fill",
                                        {"n": n, "d": d, "ub": 1, "m1": m1, "m2": m2, "reset2": reset2, "same_id": same},
                                        expect=("filled",), opts={"validate": 1}))
+    # large samples with a few symbolic rows (size-dependent paths: chunking, buffering; seed C18-7)
+    for total, k, d in ((4100, 1, 1), (4500, 1, 2)) if q else ((4100, 2, 1), (4500, 2, 2), (9000, 1, 2)):
+        out.append(Job(f"fill-bulk-{total}rows-{k}sym-{d}d", "checks.c08:body_fill_bulk", {"total": total, "k_sym": k, "d": d},
+                       expect=("filled",), opts={"validate": 1}))
     for k in (1, 2, 3, 4):
         out.append(Job(f"distn-k{k}", "checks.c08:body_distn", {"k": k}, expect=("lemma",)))
     for n, ub, m in ((3, 1, 2), (2, 1, 1), (3, 2, 2)) + (() if q else ((4, 1, 2),)):
